@@ -133,7 +133,7 @@ TInvoke ==
                  floorRev |-> maxRet,
                  m |-> IF IsWrite(E.op) /\ IsLive(Latest(ver[E.k])) THEN Latest(ver[E.k]).rev ELSE 0,
                  diff |-> IF IsWrite(E.op) THEN ~Matches(E.op, E.exp, 0, ver[E.k]) ELSE FALSE,
-                 rev |-> 0, unk |-> FALSE, okc |-> FALSE, at |-> l, cm0 |-> cm, fl0 |-> floor, dirty |-> FALSE]}
+                 rev |-> 0, unk |-> FALSE, okc |-> FALSE, at |-> l, cm0 |-> cm, fl0 |-> floor, dirty |-> FALSE, frev |-> 0]}
     /\ UNCHANGED <<idx, ver, hv, floor, cm, base, maxRet, seen, maxRev, evlog, ws, rds, prefixes, cmax, expiring, chg, ttl, viol>>
 
 \* the version records (r > 0) a commit wants to put
@@ -179,6 +179,8 @@ TCommit ==
        /\ pend' = {IF x.p = p /\ vp # {}
                    THEN [x EXCEPT !.rev = ops[CHOOSE i \in vp : TRUE].r, !.unk = @ \/ res = "unk",
                                   !.okc = @ \/ (applied /\ res = "ok"),
+                                  \* a refused conditional commit: what the key's newest version was at that moment
+                                  !.frev = IF ~applied /\ res = "cas" THEN Latest(ver[x.k]).rev ELSE @,
                                   !.diff = @ \/ (IsWrite(x.op) /\ ~Matches(x.op, x.exp, x.m, st[2][x.k]))]
                    ELSE IF IsWrite(x.op) THEN [x EXCEPT !.diff = @ \/ ~Matches(x.op, x.exp, x.m, st[2][x.k])]
                    \* a read in flight while a commit lands on a key it looks at
@@ -228,6 +230,11 @@ TReturn ==
                                  "SuccessMeansWritten") ELSE {})
             \cup (IF o.unk THEN V(~succ /\ err = "unk", "UnknownIsError") ELSE {})
             \cup (IF succ /\ o.op = "delete" THEN V(E.kvrev > 0 /\ E.kvrev < o.rev, "DeleteReturnsPrev") ELSE {})
+            \* the key-value in a failure answer was read after the refused commit: it is a stored version of the key and
+            \* not older than the version that made the condition fail (etcd: exactly that version)
+            \cup (IF ~succ /\ err = "" /\ E.kvrev > 0 /\ o.frev > 0
+                  THEN V(E.kvrev >= o.frev /\ (\E v \in hv[k] : v.rev = E.kvrev /\ v.val # TOMB /\ (Unstar(v.val) = E.kvval \/ v.val = STAR)),
+                         "FailedReturnsCurrent") ELSE {})
        /\ maxRet' = IF o.rev > maxRet THEN o.rev ELSE maxRet
        /\ pend' = pend \ {o}
     /\ UNCHANGED <<idx, ver, hv, floor, cm, base, seen, maxRev, evlog, ws, rds, prefixes, cmax, expiring, chg, ttl>>
@@ -519,6 +526,7 @@ M_ExpireWholly          == NoViol("ExpireWholly")
 M_ExpiryExpectation     == NoViol("ExpiryExpectation")
 M_UniqueRevision        == NoViol("UniqueRevision")
 M_NoPanic               == NoViol("NoPanic")
+M_FailedReturnsCurrent  == NoViol("FailedReturnsCurrent")
 M_BulkStreamExactlyOnce == NoViol("BulkStreamExactlyOnce")
 M_PartitionsTileInterval == NoViol("PartitionsTileInterval")
 M_ReadStable            == NoViol("ReadStable")
